@@ -126,7 +126,11 @@ def gen_setval(rng, ty):
     elif k == 3:
         v = hi + 1
     elif k == 4:
-        v = rng.choice([0, 1, -1])
+        # small values and bytes that look like an errno / status code (ENOENT 2, EIO 5, ENOMEM 12, EINVAL 22, ...): the echo of a
+        # written value must never be taken for an error code
+        v = rng.choice([0, 1, -1, 2, 2, 3, 4, 5, 12, 13, 22, 28, 110])
+        if v > hi:
+            v = 2
     elif k == 5:
         v = rng.choice([hi + 1 + rng.randrange(1 << 70), lo - 1 - rng.randrange(1 << 70), 1 << (8 * WIDTH[ty]), -(1 << (8 * WIDTH[ty]))])
     elif k == 6:
@@ -134,6 +138,36 @@ def gen_setval(rng, ty):
     else:
         v = rng.randint(lo, hi)
     return ['i', v, as_str]
+
+
+def gen_cache_case(rng):
+    """a single-session case whose parameter table reaches Param through the real TocFetcher: cache hit in the read-only or the
+    read-write cache directory on a file in HEAD's on-disk format, or download; indices 0..n-1; read-only and read-write,
+    extended (persistent or not) and plain parameters; sets aimed at the read-only ones"""
+    case = gen_case(rng, small=True)
+    cfg = case['cfg']
+    toc = cfg['toc']
+    remap = {}
+    for k, e in enumerate(toc):
+        remap[e[0]] = k
+        e[0] = k
+        e[4] = int(rng.random() < 0.45)
+    for key in ('dev_init', 'dev_default'):
+        cfg[key] = {str(remap[int(i)]): v for i, v in cfg[key].items()}
+    cfg['dev_enoent'] = [remap[i] for i in cfg['dev_enoent']]
+    cfg['ext_nonpers'] = [e[0] for e in toc if not e[5] and rng.random() < 0.3]
+    cfg['toc_source'] = {'kind': rng.choice(['cache_ro', 'cache_ro', 'cache_rw', 'cache_rw', 'download']), 'crc': rng.randrange(1, 1 << 32)}
+    ro_names = [e[1] for e in toc if e[4]]
+    for ops in case['threads']:
+        for op in ops:
+            if op[0] == 'set' and ro_names and rng.random() < 0.5:
+                op[1] = rng.choice(ro_names)
+                op[2] = gen_setval(rng, next(e[3] for e in toc if e[1] == op[1]))
+    if ro_names:
+        case['threads'][-1].append(['set', ro_names[0], gen_setval(rng, next(e[3] for e in toc if e[1] == ro_names[0]))])
+    case['threads'][0] = [['readall']] + [op for op in case['threads'][0] if op[0] != 'readall']
+    case['gen'].update({'stray': 0, 'drain': True})
+    return case
 
 
 def gen_case(rng, small=False):
@@ -297,8 +331,42 @@ def execute(case, rng=None, harness=None):
     cfg = case['cfg']
     toc_by_name = {e[1]: e for e in cfg['toc']}
     own = harness is None
-    h = Harness(_cfg_for_harness(cfg)) if own else harness
     steps, sched, problems = [], [], []
+    cache_dir = None
+    hcfg = _cfg_for_harness(cfg)
+    if own and 'toc_source' in cfg:
+        # the parameter table of this session comes through the real TocFetcher: from a cache file written here, literally, in the
+        # on-disk format of HEAD (fakes.c04_sched.cache_file_text), or downloaded
+        import shutil
+        from fakes.c04_sched import cache_file_text
+        src = dict(cfg['toc_source'])
+        cache_dir = os.path.join(VERIF, '.build', 'c04_cache_%d_%d' % (os.getpid(), next(_cache_nr)))
+        shutil.rmtree(cache_dir, ignore_errors=True)
+        os.makedirs(cache_dir)
+        ext_np = set(cfg.get('ext_nonpers', []))
+        table = [(e[0], e[1], e[2], e[3], e[4], bool(e[5]) or e[0] in ext_np) for e in cfg['toc']]
+        if src['kind'] in ('cache_ro', 'cache_rw'):
+            with open(os.path.join(cache_dir, '%08X.json' % src['crc']), 'w') as f:
+                f.write(cache_file_text(table))
+        src['dir'] = cache_dir
+        hcfg['toc_source'] = src
+    try:
+        h = Harness(hcfg) if own else harness
+    except Exception:
+        if cache_dir:
+            import shutil
+            shutil.rmtree(cache_dir, ignore_errors=True)
+        raise
+    if cache_dir:
+        kind = cfg['toc_source']['kind']
+        if kind != 'download' and h.table_was_downloaded:
+            problems.append({'what': 'the cache file in the format of HEAD was not accepted (table downloaded instead)'})
+        if kind == 'download':
+            fn = os.path.join(cache_dir, '%08X.json' % cfg['toc_source']['crc'])
+            written = open(fn).read() if os.path.exists(fn) else None
+            if written != cache_file_text(table):
+                problems.append({'what': 'the cache file written after a download differs from the recorded on-disk format of HEAD',
+                                 'written': (written or '')[:400]})
     gen = case.get('gen') or {}
     try:
         threads = []
@@ -447,6 +515,9 @@ def execute(case, rng=None, harness=None):
         if own:
             h.close()
             logging.disable(logging.NOTSET)
+        if cache_dir:
+            import shutil
+            shutil.rmtree(cache_dir, ignore_errors=True)
     return {'steps': steps, 'sched': sched, 'problems': problems}
 
 
@@ -1178,6 +1249,40 @@ def corpus_cases():
     return out
 
 
+class _First:
+    """schedule policy of the deterministic sweeps: always the first enabled step"""
+
+    def random(self):
+        return 0.99
+
+    def choice(self, l):
+        return l[0]
+
+    def randrange(self, *a):
+        return 0
+
+
+ERRNO_LIKE = [0, 1, 2, 3, 4, 5, 11, 12, 13, 16, 22, 28, 110]
+
+
+def sweep_cases():
+    """every 8-bit type (and, for comparison, a 16-bit one) in a protocol >= 4 session: each small / errno-like value is written and
+    read back, one request at a time; device values and defaults that look like a status byte as well"""
+    cases = []
+    for ty8 in (8, 0):
+        toc = [[3, 0, 0, ty8, 0, 1], [258, 1, 1, ty8, 0, 1], [2, 2, 2, 9, 0, 1]]
+        cfg = {'toc': toc, 'cb_param': [[0, 1000], [1, 1001]], 'cb_group': [[2, 1002]], 'cb_all': [1003],
+               'dev_init': {'3': [2], '258': [5], '2': [2, 0]}, 'dev_default': {'3': [2], '258': [22], '2': [2, 0]}, 'dev_enoent': []}
+        ops = [['readall']]
+        for v in ERRNO_LIKE:
+            ops += [['set', 0, ['i', v, False]], ['read', 0], ['set', 1, ['i', v, True]], ['set', 2, ['i', v, False]]]
+        cases.append({'cfg': cfg, 'threads': [ops], 'sched': None,
+                      'gen': {'burst': False, 'drain': True, 'notify': 0, 'stray': 0, 'budget': 700, 'serial': True}})
+    return cases
+
+
+import itertools
+_cache_nr = itertools.count()
 _runs = {}
 _xruns = {}
 _sruns = {}
@@ -1226,6 +1331,15 @@ def _executions(ctx):
         case['sched'] = rec['sched']
         rruns.append((case, rec, 'gen'))
     _rruns[key] = rruns
+    for case in sweep_cases():
+        rec = execute(case, _First())
+        case['sched'] = rec['sched']
+        runs.append((case, rec, 'sweep'))
+    for k in range(ctx.scale(40, 800)):
+        case = gen_cache_case(ctx.rng)
+        rec = execute(case, ctx.rng)
+        case['sched'] = rec['sched']
+        runs.append((case, rec, 'cache'))
     n = ctx.scale(400, 8000)
     for k in range(n):
         case = gen_case(ctx.rng, small=(k % 4 == 0))
